@@ -12,6 +12,7 @@ explicit `times` partition) so that solver.run_scenario / reference_F / scenario
   aligned_pulse  L(t) coincides at the start, the midpoint and the end of every update interval but varies in between
   long_history   10-16 short update calls
   uneven         random partition including one interval 1e-6 of the span
+  round_trip     forward over the partition and back again (F must return to the supplied one)
 """
 from __future__ import annotations
 
@@ -20,7 +21,7 @@ import numpy as np
 from . import impl
 from . import solver
 
-FAMILIES = ["far_origin", "si_units", "reversed", "aligned_pulse", "long_history", "uneven"]
+FAMILIES = ["far_origin", "si_units", "reversed", "aligned_pulse", "long_history", "uneven", "round_trip"]
 
 
 def make(rng, k, family, nmax=8, regimes=(4, 6)):
@@ -42,6 +43,11 @@ def make(rng, k, family, nmax=8, regimes=(4, 6)):
         sc["times"] = (base / k_).tolist()
     elif family == "reversed":
         sc["times"] = solver.times_of(sc)[::-1].tolist()
+    elif family == "round_trip":
+        # forward over the partition and back again: the deformation gradient returns to the supplied one
+        # (Properties/C06Analytic.backward_undoes_forward; for L(t, x) by reversibility of the ODE)
+        ts_ = solver.times_of(sc)
+        sc["times"] = list(ts_) + list(ts_[::-1][1:])
     elif family == "aligned_pulse":
         # L(t) = L0 + 4u(1-u) L3 with u = (t/P) mod 1 and P a power of two: at the start, the midpoint and the end of every update
         # interval [2Pj, 2P(j+1)] the bump is EXACTLY zero (the three sampled gradients are bit-identical), in between it is not
